@@ -1,4 +1,6 @@
 import H2T.Lemmas.Cascade
+import H2T.Lemmas.TagColour
+import H2T.Lemmas.TagRich
 
 /-! # C19 — competing declarations are resolved by the CSS cascade
 
@@ -54,5 +56,47 @@ example :
     let b : Dcl := ⟨false, .author, { inline := true }, 2⟩
     let c : Dcl := ⟨false, .author, { inline := true }, 3⟩
     (foldImpl WithSpec.maybeUpdate {} [b, a, c]).val = some 3 := by decide
+
+/-! ## text takes its colour from the nearest enclosing element that has one
+
+The render tree carries, for each element, the colour its cascade chose (`styleOf` of the computed style, whose
+`colour` holder is the fold the theorems above are about).  The theorem below is about everything after that: pushing and
+popping colours around children, text added at any depth, wrapping, block nesting, sub-renderers for list items, quotes
+and headings.  `colT` is the specification: walk the tree, remember the colour of the nearest enclosing node that has
+one (`own sty inherited`), and give it to every visible character. -/
+
+open H2T in
+/-- **innermost `Colour` annotation = colour of the nearest enclosing node with a colour**: for every render tree without
+    tables and `<pre>`, every width and configuration (footnotes off), in rich output: the characters of the rendered
+    lines (other than `#`, `>`, `*`, `-`, `.` and digits, which block prefixes are made of), each paired with the innermost
+    colour annotation of its tag vector, are exactly the characters of `colT` -/
+theorem text_colour_is_nearest_ancestor (cfg : Cfg) (w : Nat) (tree : RNode) (ls : List RLine) (hfn : cfg.footnotes = false)
+    (ht : plainTree tree = true) (h : renderTree cfg Deco.rich w tree = .ok ls) :
+    ((ls.flatMap trink).map fun c => (c.ch, lastFg c.tag)).filter (fun x => richAlpha x.1) =
+      (colT cfg Deco.rich none 0 tree).filter (fun x => richAlpha x.1) :=
+  renderTree_colours richAlpha cfg Deco.rich w tree ls hfn rich_avoids rich_colourDeco ht h
+
+open H2T in
+/-- what the specification says: a text node shows its own colour if it has one, else the inherited one; an element passes
+    its own colour, else the inherited one, to its children -/
+theorem spec_colour_text (cfg : Cfg) (d : Deco) (inh : Option Col) (dep : Nat) (sty : Style) (s : List Ch) :
+    colT cfg d inh dep (.text sty s) = (keep (iterN strikeFilter dep s)).map fun ch => (ch, own sty inh) := rfl
+
+open H2T in
+theorem spec_colour_container (cfg : Cfg) (d : Deco) (inh : Option Col) (dep : Nat) (sty : Style) (kids : List RNode) :
+    colT cfg d inh dep (.box sty .container kids) = colL cfg d (own sty inh) dep kids := by simp [colT]
+
+open H2T in
+/-- non-vacuity: red div > (text, blue span > text, uncoloured em > text), text after: colours red, blue, red, none -/
+example :
+    let red : Style := { fg := some ⟨255, 0, 0⟩ }
+    let blue : Style := { fg := some ⟨0, 0, 255⟩ }
+    let tree : RNode := .box {} .block [.box red .div [.text {} (strCh "a"), .box blue .container [.text {} (strCh "b")],
+      .box {} .em [.text {} (strCh "c")]], .text {} (strCh "d")]
+    plainTree tree = true ∧
+    ((renderTree {} Deco.rich 20 tree).toOption.map fun ls => ((ls.flatMap trink).map fun c => (c.ch.cp, lastFg c.tag))) =
+      some [(97, some (255, 0, 0)), (98, some (0, 0, 255)), (99, some (255, 0, 0)), (100, none)] ∧
+    (colT {} Deco.rich none 0 tree).map (fun x => (x.1.cp, x.2)) =
+      [(97, some (255, 0, 0)), (98, some (0, 0, 255)), (99, some (255, 0, 0)), (100, none)] := by decide +kernel
 
 end H2T.C19
